@@ -402,9 +402,9 @@ static void race_reset_range(uintptr_t a, size_t n) {
     snprintf(where, sizeof where, " in block %p+%ld (size %lu, allocated by T%d)", (void*)u, (long)(a - u),
              (unsigned long)h->size, h->alloc_tid);
   }
-  finishf(V_VIOLATION, "RACE", "%s: %s%s by T%d in %s at %p%s is not ordered by happens-before with earlier %s%s by T%d (clk %u) pc=%p",
+  finishf(V_VIOLATION, "RACE", "%s: %s%s by T%d in %s at %p%s is not ordered by happens-before with earlier %s%s by T%d (clk %u, last seen clk %u) pc=%p",
           what, atomic ? "atomic " : "", is_write ? "write" : "read", me->id, opname_of_thread(me), (void*)a, where,
-          (old.flags & 2) ? "atomic " : "", (old.flags & 1) ? "write" : "read", old.tid, old.clk, pc);
+          (old.flags & 2) ? "atomic " : "", (old.flags & 1) ? "write" : "read", old.tid, old.clk, me->vc.c[old.tid], pc);
 }
 
 static inline void race_access_gran(uintptr_t ga, uint8_t mask, bool is_write, bool atomic, void* pc, Gran** out) {
@@ -958,8 +958,8 @@ static uint64_t atomic_core(AK k, uintptr_t a, int size, uint64_t v, uint64_t* e
     floor_add(l, me->id, myclk, m->ts);
     if (sc) sc_post(me);
     g.trace_hash = mix64(g.trace_hash, (uint64_t(me->id) << 56) ^ (a << 8) ^ ret);
-    TRACE("  %6lu T%d load%d  %p -> %#lx mo=%d%s\n", (unsigned long)g.steps, me->id, size * 8, (void*)a, (unsigned long)ret, mo,
-          m == &l->m[l->nmsg - 1] ? "" : " (STALE)");
+    TRACE("  %6lu T%d load%d  %p -> %#lx mo=%d%s rel=%d[%u %u %u %u]\n", (unsigned long)g.steps, me->id, size * 8, (void*)a, (unsigned long)ret, mo,
+          m == &l->m[l->nmsg - 1] ? "" : " (STALE)", (int)m->has_rel, m->rel.c[0], m->rel.c[1], m->rel.c[2], m->rel.c[3]);
     after_observation(me, pc, a, ret);
     return ret;
   }
